@@ -509,6 +509,8 @@ def eval_cases_concrete(c: Contract, a: NS, kind: str, value: Any, wview: Any = 
 
 def replay_concrete(c: Contract, vals: dict[str, Any], model: Any, choice: dict[str, int]) -> dict[str, Any]:
     ev = _mk_eval(model)
+    if not c.replayable:
+        return {"confirmed": False, "note": "the inputs of this contract are abstract models (no concrete realisation): the failed obligation and the solver model are the evidence"}
     if any(hasattr(x, "register") for x in vals.values()):
         return _replay_abstract(c, vals, ev)
     try:
